@@ -2,7 +2,6 @@ package main
 
 import (
 	"strings"
-
 )
 
 // c11Oracle: both backends produce exactly refsem's observation for control-flow programs; the
